@@ -26,5 +26,22 @@ def handle (args : List String) : Option String :=
     let r := restriction cfg (← decList scopeClaims) (← restr (← decList requested))
     let out := release (infoOf (← decList info)) r
     some (encList (out.map (·.1)))
+  | ["resolve", base, mAlways, mByScope, perClient, bsNonEmpty, bsPoint, bsSec, alPoint, alSec, point, rtOnly, scopeClaims, requested, info] => do
+    -- the whole path: rules chosen by resolvePoint for (point, response type), then restriction and release
+    let optB : String → Option Bool := fun w => if w = "1" then some true else if w = "0" then some false else none
+    let pt ← decStr point
+    let sec := secondaryOf pt (rtOnly = "1")
+    let m : ModuleConf := { base := ← restr (← decList base), byScope := mByScope = "1", always := ← decList mAlways, perClient := perClient = "1" }
+    let alP ← decList alPoint
+    let alS ← decList alSec
+    let cl : ClientConf := { bsNonEmpty := bsNonEmpty = "1",
+                             byScope := fun p => if p = pt then optB bsPoint else if some p = sec then optB bsSec else none,
+                             always := fun p => if p = pt then alP else if some p = sec then alS else [] }
+    let cfg := resolvePoint m cl pt sec
+    let r := restriction cfg (← decList scopeClaims) (← restr (← decList requested))
+    some (encList ((release (infoOf (← decList info)) r).map (·.1)))
+  | ["audgate", e, cs, inAud] =>
+    let c : Option Bool := if cs = "1" then some true else if cs = "0" then some false else none
+    some (if audGate (e = "1") c (inAud = "1") then "1" else "0")
   | _ => none
 end Idpy.Driver.Claims
